@@ -1,21 +1,26 @@
 (** C03  Placements honour partition, traits, server state and lease lifetime.
 
-    Proved on the model (Sched/FrameP.v, Sched/Steps.v), for every cell state:
-      C03_every_put_is_guarded  whatever puts an instance on a server (fresh placement, eviction path, restore) goes
-                                through Server.put, whose guard establishes: same partition label, all traits of the
-                                instance and of its allocation offered, (for a non-zero lease) now + lease < reboot
-                                time, room in every dimension and server-level affinity head-room (C03_put_guard);
+    Proved on the model:
+      C03_new_assignment        for every reachable state (any history of the operation alphabet) and the cycle run from
+                                it: if an instance ends the cycle on a server other than the one it started on, that
+                                server is up and - measured on the state before the cycle - carries the partition label
+                                of the instance's allocation, offers every trait of the instance and of its allocation,
+                                and (non-zero lease) is not due for reboot before now + lease
+                                (Sched/TurnP.v per-turn specification of the placement loop incl. the eviction scan,
+                                the restore of an eviction and the renewal paths; Sched/CycleP.v; Sched/Reach.v);
+      C03_cycle_spec            the same for one cycle from any state satisfying the invariants;
+      C03_every_put_is_guarded / C03_put_guard   whatever puts an instance on a server goes through Server.put, whose
+                                guard establishes label, traits, lifetime, room and server-level affinity head-room;
       C03_fresh_put_only_up / C03_eviction_only_up   a fresh placement walk and the eviction scan leave every server
-                                that is not up exactly as it was (so an assignment to a new server is to an up server);
+                                that is not up exactly as it was;
       C03_cycle_is_guarded_steps   a whole cycle is a sequence of primitive transitions whose only placing one is the
                                 guarded put.
     Refuted for the "after every cycle" half on the code as it is (known finding, kept because repairing it would
     contradict C07/C08 as stated):
-      C03_after_refuted         an instance re-assigned to an allocation of another partition keeps its old server.
-    Partial: the link "server after <> server before => that put was a fresh or eviction put" is decided by the
-    correspondence (placement tuples are in every cycle digest) and the C03 oracle on (instance, before, after). *)
+      C03_after_refuted         an instance re-assigned to an allocation of another partition keeps its old server. *)
 From Coq Require Import ZArith QArith List Bool Relations.
-From TM Require Import Sched.Vec Sched.Types Sched.Tree Sched.Cycle Sched.Events Sched.MapsP Sched.Steps Sched.FrameP.
+From TM Require Import Sched.Vec Sched.Types Sched.Queue Sched.Tree Sched.Cycle Sched.Events Sched.MapsP Sched.Steps Sched.FrameP
+                       Sched.InvAcct Sched.InvIdent Sched.TurnP Sched.CycleP Sched.Reach.
 Import ListNotations.
 Open Scope Z_scope.
 
@@ -45,6 +50,28 @@ Theorem C03_cycle_is_guarded_steps : forall c choices, psteps c (fst (fst (sched
 Proof. exact schedule_ps. Qed.
 Print Assumptions C03_cycle_is_guarded_steps.
 
+Theorem C03_new_assignment : forall c ch x a a' n, reachable c ->
+  get_app x (c_apps c) = Some a -> get_app x (c_apps (step c (OSchedule ch))) = Some a' ->
+  a_server a' = Some n -> a_server a <> Some n ->
+  exists s, get_srv n (c_servers c) = Some s /\ s_state s = Up /\
+            (forall l, app_label a = Some l -> l = s_label s) /\
+            (app_traits c a = 0 \/ has_traits (s_traits s) (app_traits c a) = true) /\
+            (a_lease a = 0 \/ c_now c + a_lease a < s_valid_until s).
+Proof. intros c ch x a a' n Hr. exact (new_assignment c ch (reachable_Good c Hr) x a a' n). Qed.
+Print Assumptions C03_new_assignment.
+
+Theorem C03_cycle_spec : forall c ch, Acct c -> Ident c -> parts_wf c ->
+  forall x a, In x (part_apps (c_parts c)) -> get_app x (c_apps c) = Some a -> (a_server a <> None -> has_id a) ->
+  exists a', get_app x (c_apps (fst (fst (schedule c ch)))) = Some a' /\
+    forall n, a_server a' = Some n -> a_server a <> Some n ->
+      exists s, get_srv n (c_servers c) = Some s /\ s_state s = Up /\ guard_facts c s a.
+Proof.
+  intros c ch HA HI Hwf x a Hin Ha Hid.
+  destruct (schedule_final c ch HA HI Hwf x a Hin Ha Hid) as (a' & Ha' & (_ & _ & _ & H4)).
+  exists a'. split; [exact Ha'|exact H4].
+Qed.
+Print Assumptions C03_cycle_spec.
+
 (** the code as it is: instance 1 is placed in partition 4000, then assigned to an allocation of partition 4001 *)
 Definition ex_a (n o : Z) : app :=
   mkApp n 1 [10;10;10] 3000 [] 0 0 None None false o None None None None false false false false (-1).
@@ -63,3 +90,14 @@ Example C03_nonvacuous :
               get_app 1 (c_apps (run (init_cell 3 2000 1) (firstn 4 ex_ops))) = Some a /\
               put_guard (run (init_cell 3 2000 1) (firstn 4 ex_ops)) s a 0 = true.
 Proof. vm_compute. eexists. eexists. repeat split; reflexivity. Qed.
+
+(** non-vacuity of C03_new_assignment: in the refutation history the first cycle assigns instance 1 (pending before)
+    to server 1000 from a reachable state *)
+Example C03_new_assignment_nonvacuous :
+  let c := run (init_cell 3 2000 1) (firstn 4 ex_ops) in
+  reachable c /\ option_map a_server (get_app 1 (c_apps c)) = Some None /\
+  option_map a_server (get_app 1 (c_apps (step c (OSchedule [])))) = Some (Some 1000).
+Proof.
+  split; [exists 3%nat, 2000, 1, (firstn 4 ex_ops); split; [apply wf_ops_allb_sound; vm_compute; reflexivity|reflexivity]|].
+  vm_compute. split; reflexivity.
+Qed.
